@@ -442,3 +442,44 @@ pub fn gen_history(rng: &mut Rng, p: &Profile) -> History {
     }
     History { profile: p.name.clone(), steps, end: rng.below(2) as u8 }
 }
+
+
+/// C13: the idx-th history of the bounded-exhaustive family: every sequence of `len` symbols over
+/// {insert a plain idle, an idle that inserts an idle, an idle that cancels the oldest / second idle with a handle,
+///  cancel oldest / second, drop the oldest handle, dispatch, ping a source whose callback inserts an idle + dispatch,
+///  ping a source whose processing fails + dispatch}
+pub const C13_SYMBOLS: u64 = 10;
+pub fn c13_enumerated(mut idx: u64, len: usize) -> History {
+    let plain = |prog: Vec<CbStep>| SourceSpec { kind: Kind::Ping, lifecycle: false, prog, fault: None, via_insert: false, bad_fd: None, ready_at_insert: false };
+    let idle = |ops: Vec<Op>| Op::InsertIdle(Box::new(IdleSpec { ops }));
+    let step = |ops: Vec<Op>, ret: Ret| CbStep { ops, ret, tact: TAct::ToInstant(Dl::Far), child_ret: Ret::Continue };
+    let mut steps = vec![
+        Step::Op(Op::Insert(Box::new(plain((0..len).map(|_| step(vec![idle(vec![])], Ret::Continue)).collect())))),
+        Step::Op(Op::Insert(Box::new(plain((0..len).map(|_| step(vec![], Ret::Err)).collect())))),
+    ];
+    for _ in 0..len {
+        let sym = idx % C13_SYMBOLS;
+        idx /= C13_SYMBOLS;
+        match sym {
+            0 => steps.push(Step::Op(idle(vec![]))),
+            1 => steps.push(Step::Op(idle(vec![idle(vec![])]))),
+            2 => steps.push(Step::Op(idle(vec![Op::CancelIdle(0)]))),
+            3 => steps.push(Step::Op(idle(vec![Op::CancelIdle(1)]))),
+            4 => steps.push(Step::Op(Op::CancelIdle(0))),
+            5 => steps.push(Step::Op(Op::CancelIdle(1))),
+            6 => steps.push(Step::Op(Op::DropIdleHandle(0))),
+            7 => steps.push(Step::Dispatch(0)),
+            8 => {
+                steps.push(Step::Op(Op::Ping(Sel::Live(0))));
+                steps.push(Step::Dispatch(0));
+            }
+            _ => {
+                steps.push(Step::Op(Op::Ping(Sel::Live(1))));
+                steps.push(Step::Dispatch(0));
+            }
+        }
+    }
+    steps.push(Step::Dispatch(0));
+    steps.push(Step::Dispatch(0));
+    History { profile: "C13".into(), steps, end: (idx % 2) as u8 }
+}
